@@ -92,6 +92,7 @@ type Proc struct {
 	ExecPath         string
 	ExecFd           int
 	ExecAtEmptyPath  bool
+	ExecFile         *FileObj       // open file designated by the descriptor given to execveat
 	ExecFds          map[int]*FDEnt // table right after exec
 	ExecCapEff       uint64
 	ExecCapPrm       uint64
@@ -594,9 +595,11 @@ func (k *Kernel) sysExec(p *Proc, path string, fd int, emptyPath bool) (uintptr,
 		return errRet, 0, syscall.ENOEXEC
 	}
 	if fd >= 0 {
-		if ent, ok := p.Fds[fd]; !ok || ent == nil {
+		ent, ok := p.Fds[fd]
+		if !ok || ent == nil {
 			return errRet, 0, syscall.EBADF
 		}
+		p.ExecFile = ent.File
 	}
 	p.Execed = true
 	p.Released = true
@@ -756,6 +759,17 @@ func Clone(trap, a1, a2, a3 uintptr) (uintptr, syscall.Errno, bool, bool) {
 	c.Vfork = flags&syscall.CLONE_VFORK != 0
 	k.Procs[c.Pid] = c
 	return uintptr(c.Pid), 0, c.VM, c.Vfork
+}
+
+// AckPending reports whether data is queued for any stream end that p holds open
+// (i.e. an acknowledgement has already been sent to a child waiting in its sync read).
+func (k *Kernel) AckPending(p *Proc) bool {
+	for _, e := range p.Fds {
+		if e != nil && e.File.S != nil && len(e.File.S.Q[e.File.End]) > 0 {
+			return true
+		}
+	}
+	return false
 }
 
 // VforkReleased: the vfork parent may run again.
